@@ -100,7 +100,7 @@ def per_path(ctx, po, sh):
 def body(ctx):
     ctx.cov['outside_claim'] = ['`..expr` supplying exactly the fields no member provides is Rust struct-update semantics once the literal has the decoded form', 'default case arms (C02/C09)', 'evaluation order at run time (the `let` statements precede the result expression textually)']
     ctx.assumptions = ['decoder is structural; predicted == real tokens per path', 'vars/update/return expressions contain `@` only (`~` has no meaning there)']
-    expander.sweep(ctx, ['params'], per_path)
+    expander.sweep(ctx, ['params'], per_path, judge_native=True)
 
 
 if __name__ == '__main__':
